@@ -1154,6 +1154,7 @@ theorem addLink_ok (p p' : Parser) (srcs : List Key) (co : List Bool) (t : Key) 
     ∃ ssrc ta,
       (existingTargets p).contains t = false ∧
       srcs.any (fun s => (existingTargets p).contains s) = false ∧
+      srcs.contains t = false ∧
       (existingSources p).contains t = false ∧
       resolveSources p.actions srcs co = some ssrc ∧ findParent p.actions t = some ta ∧
       (ta.kind.isSubT = true → ta.dest ≠ t → isStrictPrefix (ta.dest ++ [initArgs]) t = true) ∧
@@ -1170,20 +1171,23 @@ theorem addLink_ok (p p' : Parser) (srcs : List Key) (co : List Bool) (t : Key) 
       · split at h
         · cases h
         · split at h
-          · rename_i ssrc ta hs ht
-            simp only [] at h
-            split at h
-            · cases h
-            · rename_i hbad
-              cases h
-              refine ⟨ssrc, ta, ?_, ?_, ?_, hs, ht, ?_, rfl⟩
-              · simp_all
-              · simp_all
-              · simp_all
-              · intro h1 h2
-                simp [h1, h2] at hbad
-                exact hbad
           · cases h
+          · split at h
+            · rename_i ssrc ta hs ht
+              simp only [] at h
+              split at h
+              · cases h
+              · rename_i hbad
+                cases h
+                refine ⟨ssrc, ta, ?_, ?_, ?_, ?_, hs, ht, ?_, rfl⟩
+                · simp_all
+                · simp_all
+                · simp_all
+                · simp_all
+                · intro h1 h2
+                  simp [h1, h2] at hbad
+                  exact hbad
+            · cases h
 
 theorem isPrefix_spec : ∀ (d k : Key), isPrefix d k = true → ∃ r, k = d ++ r
   | [], k, _ => ⟨k, rfl⟩
@@ -1294,6 +1298,7 @@ def Unchained (l l' : Link) : Prop :=
 /-- the invariants of a parser all of whose links were registered through `addLink` -/
 structure Inv (p : Parser) : Prop where
   noChain : p.links.Pairwise Unchained
+  noSelf : ∀ l ∈ p.links, l.target ∉ l.sources.map (·.key)
   wf : ∀ l ∈ p.links, WfLink l
   notReq : ∀ l ∈ p.links, l.target ∉ p.required
   plainAct : ∀ l ∈ p.links, l.kind = .plain → (⟨l.target, .link⟩ : Action) ∈ p.actions
@@ -1305,6 +1310,7 @@ structure Inv (p : Parser) : Prop where
 theorem Inv.init (p : Parser) (h : p.links = []) (hd : ∀ a ∈ p.actions, a.dest ≠ [])
     (hl : ∀ a ∈ p.actions, a.kind ≠ .link) : Inv p :=
   { noChain := by rw [h]; exact List.Pairwise.nil
+    noSelf := by rw [h]; intro l hl; cases hl
     wf := by rw [h]; intro l hl; cases hl
     notReq := by rw [h]; intro l hl; cases hl
     plainAct := by rw [h]; intro l hl; cases hl
@@ -1316,7 +1322,7 @@ theorem take_of_append (d r : Key) : (d ++ r).take d.length = d := by simp
 
 theorem Inv.step (p p' : Parser) (srcs : List Key) (co : List Bool) (t : Key) (fn : Option Nat)
     (hi : Inv p) (h : addLink p srcs co t fn = .ok p') : Inv p' := by
-  obtain ⟨ssrc, ta, hT, hS, hTS, hrs, hfp, hsub, hp'⟩ := addLink_ok p p' srcs co t fn h
+  obtain ⟨ssrc, ta, hT, hS, hOwn, hTS, hrs, hfp, hsub, hp'⟩ := addLink_ok p p' srcs co t fn h
   obtain ⟨hta, htk, r, htr⟩ := findParent_some p.actions t ta hfp
   have hkeys := resolveSources_keys p.actions srcs co ssrc hrs
   have htne : t ≠ [] := by
@@ -1344,7 +1350,7 @@ theorem Inv.step (p p' : Parser) (srcs : List Key) (co : List Bool) (t : Key) (f
     have : t ∈ existingSources p := by
       unfold existingSources; exact List.mem_flatMap.mpr ⟨l, hl, hm⟩
     simp [List.contains_eq_mem, this] at hTS
-  refine ⟨?_, ?_, ?_, ?_, ?_, ?_, ?_⟩
+  refine ⟨?_, ?_, ?_, ?_, ?_, ?_, ?_, ?_⟩
   · -- no chains
     simp only []
     rw [List.pairwise_append]
@@ -1353,6 +1359,15 @@ theorem Inv.step (p p' : Parser) (srcs : List Key) (co : List Bool) (t : Key) (f
     simp only [List.mem_singleton] at hb
     subst hb
     exact ⟨holdT a ha, by simp only []; rw [hkeys]; exact holdS a ha, by simp only []; exact holdTS a ha⟩
+  · -- no link has its target among its own sources
+    intro l hl
+    simp only [List.mem_append, List.mem_singleton] at hl
+    rcases hl with hl | hl
+    · exact hi.noSelf l hl
+    · subst hl
+      simp only []
+      rw [hkeys]
+      simpa [List.contains_eq_mem] using hOwn
   · -- well-formed
     intro l hl
     simp only [List.mem_append, List.mem_singleton] at hl
@@ -1466,7 +1481,7 @@ def linkKeys (ls : List Link) : List Key := ls.flatMap (fun l => l.target :: l.s
 def nonNested (ls : List Link) : Bool :=
   ls.all fun l => (linkKeys ls).all fun k => l.target == k || diverges l.target k
 
-/-- no link has its target among its own sources (open finding C15-self-link is the complement) -/
+/-- no link has its target among its own sources (what `_initial_input_checks` lacked before ba94f2f) -/
 def noSelf (ls : List Link) : Bool := ls.all fun l => !(l.sources.map (·.key)).contains l.target
 
 theorem Unchained.symm {l l' : Link} (h : Unchained l l') : Unchained l' l :=
@@ -1498,17 +1513,15 @@ theorem nonNested_spec {ls : List Link} (h : nonNested ls = true) {l : Link} {k 
   simp only [List.all_eq_true, Bool.or_eq_true, beq_iff_eq] at h
   exact h l hl k hk
 
-/-- an accepted link set without self link and without nested keys is independent -/
-theorem indep_of_unchained (ls : List Link) (hu : ls.Pairwise Unchained) (hs : noSelf ls = true)
-    (hn : nonNested ls = true) : SrcIndep ls ∧ TgtIndep ls := by
+/-- an accepted link set without nested keys is independent -/
+theorem indep_of_unchained (ls : List Link) (hu : ls.Pairwise Unchained)
+    (hs : ∀ l ∈ ls, l.target ∉ l.sources.map (·.key)) (hn : nonNested ls = true) : SrcIndep ls ∧ TgtIndep ls := by
   constructor
   · intro l hl l' hl' s hs'
     rcases nonNested_spec hn hl (mem_linkKeys_source hl' hs') with e | hd
     · exfalso
       by_cases el : l = l'
       · subst el
-        unfold noSelf at hs
-        simp only [List.all_eq_true, Bool.not_eq_true', List.contains_eq_mem, decide_eq_false_iff_not] at hs
         exact hs l hl (e ▸ List.mem_map.mpr ⟨s, hs', rfl⟩)
       · have := pairwise_mem (fun h => Unchained.symm h) ls hu l hl l' hl' el
         exact this.2.1 (e ▸ List.mem_map.mpr ⟨s, hs', rfl⟩)
